@@ -146,6 +146,8 @@ func goKinds(n NodeCfg) []string {
 	switch {
 	case n.Kind == "flow":
 		return []string{"flow"}
+	case n.Kind == "bleaf":
+		return []string{"batchleaf", "batchleafnode"}
 	case n.Func:
 		return []string{"funcopt", "funcbld"}
 	case n.Retry && n.Fb:
@@ -389,9 +391,13 @@ func (c *leafCore) exec(arg Obs) (any, error, error) {
 	default:
 		ev["err"] = t
 		s.log(ev)
-		return nil, nil, s.reg.Err(t)
+		// a failing attempt also hands back a partial value (io.Reader style): it must never reach post
+		return s.reg.Payload(junkBase + t), nil, s.reg.Err(t)
 	}
 }
+
+// tokens of values that accompany an error and must be ignored by the library
+const junkBase = 500000
 
 func (c *leafCore) fallback(prepResult any, err error) (any, error) {
 	s := c.s
@@ -441,6 +447,10 @@ func (c *leafCore) post(shared *flyt.SharedStore, p, x Obs) (flyt.Action, error)
 	}
 	ev["err"] = t
 	s.log(ev)
+	if t%2 == 0 {
+		// the common `return flyt.DefaultAction, err` idiom: the action must not be reported with the error
+		return flyt.DefaultAction, s.reg.Err(t)
+	}
 	return "", s.reg.Err(t)
 }
 
@@ -593,6 +603,37 @@ func (s *scnRun) buildLeaf(id int) flyt.Node {
 		return &plainRetryNode{plainNode: plainNode{c: c}, n: nc.N, w: wait}
 	case "plainretryfb":
 		return &plainRetryFbNode{plainRetryNode{plainNode: plainNode{c: c}, n: nc.N, w: wait}}
+	case "batchleaf", "batchleafnode":
+		// a one-item sequential batch node used as an ordinary step of a flow
+		b := flyt.NewBatchNode().WithMaxRetries(nc.N).WithWait(wait).
+			WithPrepFunc(func(ctx context.Context, shared *flyt.SharedStore) ([]flyt.Result, error) {
+				v, err := c.prep(shared)
+				if err != nil {
+					return nil, err
+				}
+				return []flyt.Result{flyt.NewResult(v)}, nil
+			}).
+			WithExecFunc(func(ctx context.Context, p flyt.Result) (flyt.Result, error) {
+				v, _, err := c.exec(s.reg.ObserveResult(p))
+				if err != nil {
+					return flyt.Result{}, err
+				}
+				return flyt.NewResult(v), nil
+			}).
+			WithPostFunc(func(ctx context.Context, shared *flyt.SharedStore, items, results []flyt.Result) (flyt.Action, error) {
+				var p, x flyt.Result
+				if len(items) > 0 {
+					p = items[0]
+				}
+				if len(results) > 0 {
+					x = results[0]
+				}
+				return c.post(shared, s.reg.ObserveResult(p), s.reg.ObserveResult(x))
+			})
+		if nc.Gk == "batchleafnode" {
+			return b.BatchNode
+		}
+		return b
 	case "funcopt":
 		return buildFuncNode(c, nc, false)
 	case "funcbld":
